@@ -50,12 +50,59 @@ def shards(tier):
     return 16
 
 
-def load(text):
+class ReadlineOnly:
+    """A text stream that offers readline() and nothing else (a pipe, a
+    socket file, a generator in disguise): no seek, no tell, no name."""
+
+    def __init__(self, text):
+        self._f = io.StringIO(text)
+
+    def readline(self):
+        return self._f.readline()
+
+    def close(self):
+        self._f.close()
+
+
+class ReentrantFile(io.StringIO):
+    """A stream whose readline() now and then loads another schema-less
+    text start to finish before it hands out the next line."""
+    nested = 0
+
+    def readline(self, *a):
+        line = io.StringIO.readline(self, *a)
+        if not ReentrantFile.busy and line and len(line) % 3 == 0:
+            ReentrantFile.busy = True
+            try:
+                from ZConfig import schemaless
+                inner = schemaless.loadConfigFile(io.StringIO(
+                    "%import inner.one\nk v\n<a b>\n  k2 w\n</a>\n"
+                    "%import inner.two\n"))
+                ReentrantFile.nested += 1
+                if tuple(inner.imports) != ("inner.one", "inner.two") or \
+                        dict.items(inner) != {"k": ["v"]}.items() or \
+                        len(inner.sections) != 1:
+                    raise RuntimeError("nested schema-less load broken: %r"
+                                       % (inner.imports,))
+            finally:
+                ReentrantFile.busy = False
+        return line
+
+
+ReentrantFile.busy = False
+LOADS = [0]
+
+
+def load(text, stream=None):
     """('ok', walked-tree, section) | ('refused', kind) | ('internal', …)"""
     import ZConfig
     from ZConfig import schemaless
+    LOADS[0] += 1
     try:
-        top = schemaless.loadConfigFile(io.StringIO(text))
+        if stream is None and LOADS[0] % 6 == 0:
+            stream = ReentrantFile(text)
+        top = schemaless.loadConfigFile(stream if stream is not None
+                                        else io.StringIO(text))
     except NotImplementedError:
         return ("refused", "notimpl")
     except ZConfig.ConfigurationError as e:
@@ -238,6 +285,15 @@ def check_text(ctx, text, family):
         else:
             res.sample("refused-directive", case, 1)
         return
+    if res.evaluations % 5 == 2 and r1[0] != "internal":
+        # the same text from a stream that only has readline()
+        r0 = load(text, ReadlineOnly(text))
+        res.count("readline_only_loads")
+        if r0[:2] != r1[:2]:
+            res.violate("outcome-depends-on-stream-type", case,
+                        list(r1[:2]), list(r0[:2]),
+                        detail="readline()-only stream: text=%r" % text,
+                        vsig="rlonly|%s|%s" % (r1[0], r0[0]))
     if r1[0] != "ok":
         res.count("not_accepted")
         return
@@ -365,6 +421,7 @@ def _run_shard(ctx):
         check_text(ctx, c03.random_text(rng), "random")
         check_text(ctx, targeted_text(rng), "targeted")
     ctx.res.hook("nested_sections_printed_on_their_own", NESTED[0])
+    ctx.res.hook("loads_nested_in_readline", ReentrantFile.nested)
     ctx.res.info["bounds"] = {"single_line_max_len": bound,
                               "pool_size": len(pool),
                               "pool_max_lines": maxlines,
